@@ -29,6 +29,7 @@ def tokDec (A : Tokenizer.Auto σ) : Dec (Tokenizer.Item σ) (Tokenizer.DSt σ) 
     | .error _ => (s, [])
   isSize := fun _ => false
   isDA := fun _ => false
+  isCpr := fun _ => false
   handle := fun _ => (false, [])
 
 theorem feedAll_tok (A : Tokenizer.Auto σ) (chunks : List (List Nat)) (s s' : Tokenizer.DSt σ)
